@@ -66,6 +66,7 @@ let runners : (string * (z list -> z list)) list = [
   "reduce", run_reduce;
   "dreduce", run_dreduce;
   "hash", run_hash;
+  "sol", run_sol;
   "suspend", run_suspend;
   "once", run_once;
 ]
